@@ -10,7 +10,7 @@ import conda_content_trust
 from conda_content_trust import authentication as A, common as C, signing as S
 
 from props import C02, C03
-from vlib import configrun, gen_deleg, gen_envelope as GE, gen_json as G, gen_metadata as GM, gen_pyvalues as GP, keys, ref_openpgp, \
+from vlib import configrun, faults, gen_deleg, gen_envelope as GE, gen_json as G, gen_metadata as GM, gen_pyvalues as GP, keys, ref_openpgp, \
     ref_schema, ref_verify as RV, related, sched, tagjson
 from vlib.ref_canon import canon, jeq
 from vlib.runner import Inconclusive, Unit, Violation
@@ -393,6 +393,52 @@ def check_config(case):
             "count": {"calls": len(here), "accepts": here.count("accept")}}
 
 
+# ---- (b2) a call that dies half-way must not poison later calls --------------------------------------------------------
+
+@st.composite
+def _fault_cases(draw):
+    c = draw(_config_cases())
+    return {"calls": c["calls"], "k": [draw(st.integers(1, 400)) for _ in c["calls"]], "which": draw(st.integers(0, 10 ** 6))}
+
+
+def _thunk(c):
+    if c[0] == "verify_signable":
+        return lambda: A.verify_signable(copy.deepcopy(c[1]), c[2], c[3], gpg=c[4])
+    if c[0] == "verify_root":
+        return lambda: A.verify_root(copy.deepcopy(c[1]), copy.deepcopy(c[2]))
+    return lambda: A.verify_delegation(c[1], copy.deepcopy(c[2]), copy.deepcopy(c[3]), gpg=c[4])
+
+
+def check_fault_then_call(case):
+    """Every call of the corpus is first run with an exception injected at a drawn line event (an interrupted call: a
+    KeyboardInterrupt, a MemoryError, an I/O error in a diagnostic...), then - in the same process - the whole corpus is
+    evaluated normally: every outcome must equal the reference, whatever the interrupted calls left behind."""
+    want = []
+    for c in case["calls"]:
+        want.append(RV.signable(c[1], c[2], c[3], c[4]) if c[0] == "verify_signable" else
+                    RV.root_update(c[1], c[2]) if c[0] == "verify_root" else RV.delegation(c[1], c[2], c[3], c[4]))
+    interrupted = 0
+    for c, k in zip(case["calls"], case["k"]):
+        ref = faults.run(_thunk(c), PKG, "/nonexistent-target")
+        if ref.events:
+            # half of the interruptions hit late - after the per-entry work, just before the call would conclude
+            at = 1 + k % ref.events if k % 2 else max(1, ref.events - (k // 2) % 6)
+            tr = faults.run(_thunk(c), PKG, "/nonexistent-target", fault_at=at)
+            if tr.outcome == "InjectedFault":
+                interrupted += 1
+    for i, (c, w) in enumerate(zip(case["calls"], want)):
+        try:
+            _thunk(c)()
+            o = "accept"
+        except Exception as e:
+            o = type(e).__name__
+        bad = RV.mismatch(w, o)
+        if bad:
+            raise Violation("after %d interrupted calls in this process, call %d (%s): %s" % (interrupted, i, c[0], bad),
+                            bucket="state left behind by an interrupted call")
+    return {"nontrivial": interrupted > 0, "labels": ["interrupted=%d" % min(interrupted, 5)], "count": {"interrupted_calls": interrupted}}
+
+
 # ---- (d) ambient inputs: environment variables and files the verifiers look at -------------------------------------------
 
 ENV_VALUES = ["1", "0", "true", "yes", "", "debug", "/nonexistent", "never"]
@@ -432,6 +478,8 @@ def check_ambient(case):
 UNITS = [
     Unit("ambient", check_ambient, strategy=_config_cases, quick=8, thorough=100, shards_quick=8, shrink=False,
          doc="environment variables / files touched by the verifiers are discovered by tracing and then varied"),
+    Unit("fault_then_call", check_fault_then_call, strategy=_fault_cases, quick=120, thorough=4000, shards_quick=8,
+         doc="calls interrupted by an injected exception at a drawn line, then the same corpus evaluated normally: no poisoned state"),
     Unit("history", check_history, strategy=_histories, quick=300, thorough=12000, shards_quick=8,
          essential=["repeat", "related_payload", "wrap_as_signable", "verify_delegation"],
          doc="call histories over a shared pool: argument snapshots, determinism, identity independence, wrap copies"),
